@@ -36,7 +36,7 @@ LEVEL_TEXT = ("Proved (Coq, closed under the global context): (1) end to end ove
               "cover the position.")
 LEVEL_NOTE = ("Trusted: kernel, extraction, harness, hand-written model (sampled tie). Side conditions of the report theorems: posting accounts "
               "syntactically valid (postings_syntactic, the parser's guarantee as in C02/C04/C05), the account is shown as itself (no "
-              "--mapping/--remap rule touches it) and passes the filters, non-empty window, column = a period end. Not proved (decided per "
+              "--mapping/--remap rule moves it or another account onto it) and passes the filters, non-empty window, column = a period end. Not proved (decided per "
               "run by the closed form on the binary's cells): the printed, collapsed row text; rows aggregated by --mapping/--remap; the "
               "tighter step count step_bound (row_steps counts every journal day in the window, also with --close the period starts).")
 
